@@ -29,7 +29,7 @@ constructors.  Name resolution itself is the `Names` layer (C04/C07), C3 the `Mr
 The model follows the code as fixed by cb98646 (a superseded duplicate `'x 0'` is not visible:
 `isVisible` requires the object to be its parent's `contents` entry), aaed9bd (`taglink` renders the plain
 label when the target is not visible: `taglinkGuard`), 4b6324b (the index pages skip hidden roots), f972163 (`reparent` refreshes the linker's page), a09aa28 (`IndexPage`
-also when no root is visible), 5201211 (no root alias over a summary page), 1da744b (`format_docstring` renders under
+also when no root is visible), 5201211 (no root alias over a summary page), a3977d7 (none for a hidden root), fb55ab8 (undoccedSummary marker), 1da744b (`format_docstring` renders under
 `switch_context(obj)`), 97be2c0 (`findRootClasses` appends a root class to the list already stored under
 its name), 07382d3 (`reparent` updates `parentMod` of what is inside a moved class; `modul` is input).
 `requests s` = every `taglink` call / listing entry the page code makes; `emits s` = what is left of them
@@ -277,8 +277,9 @@ is (later) written -/
 def aliasFiles (s : Sys) : List File :=
   match rootNames s with
   | [r] =>
-    -- e061b2d / 5201211: no alias when `<root>.html` is the name of a summary page (it would replace it)
-    if summaryStems.contains r then []
+    -- e061b2d / 5201211: no alias when `<root>.html` is the name of a summary page (it would replace it);
+    -- a3977d7: none for a hidden root (no file may be named after it)
+    if summaryStems.contains r || !(s.roots.any (visible s)) then []
     else if (summaryFiles s ++ pageFiles s).contains .index then [.page r] else []
   | _ => []
 
@@ -627,7 +628,9 @@ def summaryEmits (s : Sys) : List Emit :=
   (s.roots.filter (visible s)).flatMap (moduleSummary s s.n true)
   ++ classIndexEmits s
   ++ (visibleAll s).map (fun o => entry .nameIndex (.summary .nameIndex) (some (.summary .nameIndex)) o (ctxPrivate s o))
-  ++ ((visibleAll s).filter fun o => !(s.ob o).hasDoc).map (link .undoc (.summary .undocced) (some (.summary .undocced)))
+  -- fb55ab8: `if isPrivate(o): item(class_='private')` (summary.isPrivate: the object or one of its containers)
+  ++ ((visibleAll s).filter fun o => !(s.ob o).hasDoc).map
+      (fun o => entry .undoc (.summary .undocced) (some (.summary .undocced)) o (ctxPrivate s o))
   ++ (if hasIndexPage s then (s.roots.filter (visible s)).map (link .indexRoots .index (some .index)) else [])
   ++ (visibleAll s).flatMap (fun o =>
         entry .allDocs (.summary .allDocuments) none o ((s.ob o).privacy == .priv)
@@ -817,6 +820,18 @@ def valLinksOld (s : Sys) (page : File) (o : Nat) : List Emit :=
   match (s.ob o).ownCtx with
   | none => (s.ob o).valrefs.map (link .valXref page none)
   | some c => (s.ob o).valrefs.map (link .valXref page (some (pageFile s c)))
+
+/-- the single-root alias before a3977d7: created whatever the visibility of the root -/
+def aliasFilesOld (s : Sys) : List File :=
+  match rootNames s with
+  | [r] =>
+    if summaryStems.contains r then []
+    else if (summaryFiles s ++ pageFiles s).contains .index then [.page r] else []
+  | _ => []
+
+/-- undoccedSummary.html before fb55ab8: entries without any marker -/
+def undocRowsOld (s : Sys) : List Emit :=
+  ((visibleAll s).filter fun o => !(s.ob o).hasDoc).map (link .undoc (.summary .undocced) (some (.summary .undocced)))
 
 /-- before a09aa28 `IndexPage` was written with several roots only -/
 def hasIndexPageOld (s : Sys) : Bool := (rootNames s).length > 1
